@@ -79,9 +79,11 @@ def main():
     repo = os.environ.get('VERIF_REPO', '/repo')
     spec = PROPS[pid]
     t0 = time.time()
-    os.makedirs(os.path.join(VERIF, 'build', 'log'), exist_ok=True)
+    # a run against another tree (seeded-change audit) keeps its logs and replay files apart from those of /repo
+    logdir = 'log' if os.path.realpath(repo) == '/repo' else 'log_alt_%s' % hashlib.md5(os.path.realpath(repo).encode()).hexdigest()[:8]
+    os.makedirs(os.path.join(VERIF, 'build', logdir), exist_ok=True)
     os.makedirs(os.path.join(VERIF, 'evidence'), exist_ok=True)
-    logpath = os.path.join(VERIF, 'build', 'log', '%s.%s.log' % (pid, tier))
+    logpath = os.path.join(VERIF, 'build', logdir, '%s.%s.log' % (pid, tier))
     log = open(logpath, 'w')
     env = dict(os.environ, ASAN_OPTIONS=ASAN_ENV, UBSAN_OPTIONS='print_stacktrace=1', VERIF_DIR=VERIF, VERIF_REPO=repo)
     env.update(spec.get('env', {}))
@@ -121,7 +123,7 @@ def main():
         agg['stat']['selftest_replayed_cases'] = agg['stat'].get('selftest_replayed_cases', 0) + len(l1)
         procs = []
         for s in range(nshards):
-            errlog = os.path.join(VERIF, 'build', 'log', '%s.%s.%s.%d.err' % (pid, tier, drv, s))
+            errlog = os.path.join(VERIF, 'build', logdir, '%s.%s.%s.%d.err' % (pid, tier, drv, s))
             cmd = base + ['--shard', str(s), '--nshards', str(nshards), '--deadline', str(deadline), '--errlog', errlog]
             # shard output goes to files: a pipe that is not being read would block a chatty shard
             outf = open(errlog[:-4] + '.out', 'w+')
@@ -168,7 +170,7 @@ def main():
 
     # ---- classify violations
     known = load_known()
-    replay_dir = os.path.join(VERIF, 'build', 'replay', pid)
+    replay_dir = os.path.join(VERIF, 'build', 'replay' if logdir == 'log' else logdir.replace('log', 'replay', 1), pid)
     shutil.rmtree(replay_dir, ignore_errors=True)
     os.makedirs(replay_dir, exist_ok=True)
     new, kf_hit = [], {}
@@ -240,7 +242,8 @@ def main():
     )
     ev = dict(property_id=pid, tier=tier, seed=seed, level=level, coverage=cov, assumptions=spec.get('assumptions', []),
               wall_s=round(wall, 2), violations=len(new))
-    json.dump(ev, open(os.path.join(VERIF, 'evidence', pid + '.json'), 'w'), indent=1)
+    # evidence/<id>.json describes runs on /repo; a run against another tree leaves its record next to its logs
+    json.dump(ev, open(os.path.join(VERIF, 'evidence', pid + '.json') if logdir == 'log' else os.path.join(VERIF, 'build', logdir, pid + '.evidence.json'), 'w'), indent=1)
     print('%s %s: cases=%d nontrivial=%d distinct=%d impl_calls=%d outcomes=%d violations=%d known=%d exhaustive=%s wall=%.1fs' % (
         pid, tier, agg['executed'], agg['nontrivial'], agg['distinct'], evaluations, len(agg['outcomes']), len(new), sum(kf_hit.values()), exhaustive, wall))
     sys.exit(rc)
